@@ -172,8 +172,26 @@ pub fn record_schema(a: &Args) {
         } else {
             None
         };
+        // lossy twins: a name / key that is valid and contains U+FFFD, then the same element with the invalid bytes that
+        // decode to it (any comparison made after a lossy decoding takes one for the other)
+        let twin_session: Option<Vec<Vec<u8>>> = if !boundary_only && s >= lit_names.len() && s < lit_names.len() + 4 {
+            let k = s - lit_names.len();
+            let valid = ["<r><e k\u{FFFD}=\"1\"/><e k\u{FFFD}=\"2\"/></r>", "<r><n\u{FFFD}/><n\u{FFFD} p=\"1\"/></r>",
+                         "<e k\u{FFFD}=\"1\"/>", "<r><e \u{FFFD}=\"1\"/></r>"][k].as_bytes().to_vec();
+            let invalid: Vec<u8> = [&b"<r><e k\xFF=\"1\"/><e k\xFF=\"2\"/></r>"[..], b"<r><n\xFF/><n\xFF p=\"1\"/></r>",
+                                    b"<e k\xFF=\"1\"/>", b"<r><e \xFF=\"1\"/></r>"][k].to_vec();
+            let mut mixed = valid.clone();
+            if let Some(pos) = mixed.windows(3).rposition(|w| w == "\u{FFFD}".as_bytes()) {
+                mixed.splice(pos..pos + 3, [0xFFu8]);
+            }
+            Some(vec![valid, mixed, invalid])
+        } else {
+            None
+        };
         let boundary: Option<Vec<Vec<u8>>> = if literal_session.is_some() {
             literal_session
+        } else if twin_session.is_some() {
+            twin_session
         } else if scale_session {
             let rows = |k: usize| -> String { (0..k).map(|_| "<row><id/><note/></row>").collect() };
             Some(vec!["<a><row><id/><note/></row><row><id/></row></a>".as_bytes().to_vec(),
@@ -181,8 +199,8 @@ pub fn record_schema(a: &Args) {
                       "<a><row><id/><extra/></row></a>".as_bytes().to_vec()])
         } else if s % 8 == 7 || boundary_only {
             let b = if boundary_only { s } else { s / 8 };
-            // (one chain in six is deeper than 1000 levels: 1001 or 1025)
-            let n = if b % BOUNDARY_KINDS <= 1 && (b / BOUNDARY_KINDS) % 3 == 2 { [1025usize, 1001][(b / BOUNDARY_KINDS / 3) % 2] }
+            // (four chains per run are deeper than 1000 levels: 1001 or 1025)
+            let n = if b % BOUNDARY_KINDS <= 1 && ((b / BOUNDARY_KINDS) == 2 || (b / BOUNDARY_KINDS) == 5) { [1025usize, 1001][(b / BOUNDARY_KINDS / 3) % 2] }
                     else { BOUNDARIES[(b / BOUNDARY_KINDS + b) % BOUNDARIES.len()] };
             Some(boundary_session(&mut r, b, n))
         } else {
